@@ -36,7 +36,14 @@ def build_harness(dst_dir):
     """builds cmd/vh from /repo's working tree with -tags verif; returns path of the binary"""
     out = os.path.join(dst_dir, "vh")
     t0 = time.time()
-    p = subprocess.run(["go", "build", "-tags", "verif", "-o", out, "./cmd/vh"], cwd=HARNESS, env=GOENV,
+    extra = []
+    if REPO != "/repo":
+        # seed testing only: build against another checkout (VERIF_REPO) without touching /repo
+        mod = open(os.path.join(HARNESS, "go.mod")).read().replace("=> /repo", "=> " + REPO)
+        open(os.path.join(dst_dir, "alt.mod"), "w").write(mod)
+        shutil.copy(os.path.join(HARNESS, "go.sum"), os.path.join(dst_dir, "alt.sum"))
+        extra = ["-modfile", os.path.join(dst_dir, "alt.mod")]
+    p = subprocess.run(["go", "build", "-tags", "verif"] + extra + ["-o", out, "./cmd/vh"], cwd=HARNESS, env=GOENV,
                        stdout=subprocess.PIPE, stderr=subprocess.STDOUT, text=True)
     if p.returncode != 0:
         raise Infra("harness build failed:\n" + p.stdout[-4000:])
@@ -263,8 +270,9 @@ def edge_cover(inits, edges, maxlen=60, rng=None, limit_paths=None, with_nodes=F
 def write_evidence(pid, tier, level, coverage, assumptions, wall, violations=0):
     ev = {"property_id": pid, "tier": tier, "seed": seed(), "level": level, "coverage": coverage,
           "assumptions": assumptions, "wall_s": round(wall, 2), "violations": violations}
-    os.makedirs(os.path.join(VERIF, "evidence"), exist_ok=True)
-    p = os.path.join(VERIF, "evidence", pid + ".json")
+    evd = os.path.join(VERIF, "evidence") if REPO == "/repo" else os.path.join("/var/tmp", "alt_evidence_" + re.sub(r'\W', '_', REPO))
+    os.makedirs(evd, exist_ok=True)
+    p = os.path.join(evd, pid + ".json")
     tmp = p + ".tmp%d" % os.getpid()
     with open(tmp, "w") as f:
         json.dump(ev, f, indent=1, sort_keys=False)
